@@ -37,7 +37,7 @@ Definition dec_N (n : N) : bytes := bytes_of_uint (N.to_uint n).
 Definition oid : Type := list N.
 Definition dotted (o : oid) : bytes := join [46] (map dec_N o).
 
-(* ---------- x500AttrTypeFromOID (x500.go:57-62): the table, else the dotted form ---------- *)
+(* ---------- x500AttrTypeFromOID (x500.go:124-129): the table, else the dotted form ---------- *)
 Definition name_table : Type := list (oid * bytes).
 Fixpoint lookup_name (t : name_table) (o : oid) : option bytes :=
   match t with
@@ -49,7 +49,7 @@ Definition attr_name_in (t : name_table) (o : oid) : bytes :=
 Definition x500_names : name_table := X500Names.x500_names.
 Definition attr_name : oid -> bytes := attr_name_in x500_names.
 
-(* ---------- escapeRDNAttrValue (x500.go:32-55) ----------
+(* ---------- escapeRDNAttrValue (x500.go:94-122) ----------
    `for k, c := range s`: k is the BYTE index of the rune, c the rune (U+FFFD, width 1, for
    invalid UTF-8); `k == len(s)-1` is a byte-index test; the result is string([]rune). *)
 Definition always_escaped (c : N) : bool :=
@@ -116,7 +116,7 @@ Definition render_value (var : variant) (v : govalue) : bytes :=
     end
   else escape_gen (v_nul var) (sprintf_s v).
 
-(* ---------- FromRDNSequence (x500.go:22-30) ---------- *)
+(* ---------- FromRDNSequence (x500.go:68-84) and rdnAttrValue (x500.go:86-92) ---------- *)
 Definition atv : Type := (oid * govalue)%type.
 Definition render_atv (var : variant) (t : name_table) (a : atv) : bytes :=
   attr_name_in t (fst a) ++ [61] ++ render_value var (snd a).
@@ -128,7 +128,7 @@ Definition render_dn_gen (var : variant) (t : name_table) (rdns : list (list atv
     join [44] (flat_map (map (render_atv var t)) (rev rdns)).
 Definition render_dn : list (list atv) -> bytes := render_dn_gen current x500_names.
 
-(* ---------- FromRawDN: the ASN.1 decoding of the name (parseRawDN: encoding/asn1 into
+(* ---------- FromRawDN (x500.go:13-19): the ASN.1 decoding of the name (parseRawDN, x500.go:32-66: encoding/asn1 into
    RDNs whose values are Go strings for the six string types and asn1.RawValue, i.e. the DER
    itself, for anything else) is the library's; [parsed] is what it returned (None: error,
    trailing bytes or an ill-formed string -> hex of the whole input) ---------- *)
